@@ -108,6 +108,17 @@ func genScenario(p *prng.R) scenario {
 	var sc scenario
 	sc.NKeys = p.Range(1, 3)
 	sc.Cfg = poolCfg{MaxKeys: p.Range(1, 3), MaxConns: p.Range(1, 2), LifeSec: int64(p.Range(1, 4)), StaleSec: int64(p.Range(1, 5)), WithNew: p.Chance(1, 3)}
+	// Boundary configurations from a stream of their own (the draws above stay what they were):
+	// conn_max_idle_count 0 (nothing may be kept idle: every returned connection is closed at
+	// once), the production defaults 5 / 5000, a single key slot.
+	switch px := prng.New(p.Uint64(), 0, "c19-cfg-boundary"); px.Intn(10) {
+	case 0, 1:
+		sc.Cfg.MaxConns = 0
+	case 2:
+		sc.Cfg.MaxConns = 5
+	case 3:
+		sc.Cfg.MaxKeys = 5000
+	}
 	nw := p.Range(2, 8)
 	deliv := nw
 	// up to three of the workers are a sweeper, a clock and the closer
